@@ -1,20 +1,24 @@
-"""Differential check of the composed Lean model `HashClient ∘ PooledClient ∘ Client` (driver command `hashpooledcall`, model
-`lean/Pymc/Model/HashPooledCall.lean` = `HashInner.lean` instantiated with `PooledCall.callP`) against the real
+"""Differential check of the composed Lean model `HashClient ∘ PooledClient ∘ Client` (driver command `hashpooledcall`, models
+`lean/Pymc/Model/HashPooledCall.lean` = `HashInner.lean` instantiated with `PooledCall.callP`, and
+`lean/Pymc/Model/HashPooledCallMany.lean` = `HashInnerMany.lean` instantiated in the same way) against the real
 `pymemcache.client.hash.HashClient(use_pooling=True, …)` over a scripted socket module.
 
 Standalone (not part of `./check`):   python harness/hashpooledcall_diff.py [n_histories] [seed]
 Environment: VERIF_REPO (default /repo) = the tree whose pymemcache is imported.
 
-A history is a list of single-key calls (the `_run_cmd` family); every call carries its time, the time at which the pool
-releases the inner client, the routing key (a preference order of the servers, given to a deterministic hasher) and a
-script: does `connect` fail, does `sendall` fail, and the `recv()` outcomes that arrive on the connection used.  Per
-call the two sides are compared on: result token, server handed to `_safely_run_func`, identity of the `PooledClient`
-invoked (numbered in order of creation over the whole `HashClient`), identity of the inner client that served
-(numbered per pool) and of the socket the commands went out on (numbered per pool in order of successful connects),
-the bookkeeping state (`hasher.nodes`, `_failed_clients`, `_dead_clients`, `_last_dead_check_time`) and, for every
-`PooledClient` registered in `self.clients`: its identity, its idle inner clients in order (identity, socket held,
-whether it has a socket, bytes left unread on it), the sockets it closed so far in order of closing, and the number
-of checked-out clients.
+A history is a list of single-key calls (the `_run_cmd` family), `get_many` / `gets_many`, `set_many` and `delete_many` calls
+(keys spread over the 1–3 servers by their routing keys); every call carries its time, the time at which the pools release
+their inner clients, per key the routing key (a preference order of the servers, given to a deterministic hasher) and a
+script — one per call for a single-key call, one per server for `get_many` / `set_many`, one per key for `delete_many`
+(which may contact the same server several times): does `connect` fail, does `sendall` fail, and the `recv()` outcomes
+that arrive on the connection used.  Per call the two sides are compared on: result token (for `set_many` the list of
+failed keys in order); and, per `_safely_run_func` / `_safely_run_set_many` of the call in order: the server handed to it,
+the identity of the `PooledClient` whose pool was asked for a client (numbered in order of creation over the whole
+`HashClient`), the identity of the inner client that served (numbered per pool) and of the socket the commands went out on
+(numbered per pool in order of successful connects); the bookkeeping state (`hasher.nodes`, `_failed_clients`,
+`_dead_clients`, `_last_dead_check_time`); and, for every `PooledClient` registered in `self.clients`: its identity, its idle
+inner clients in order (identity, socket held, whether it has a socket, bytes left unread on it), the sockets it closed
+so far in order of closing, and the number of checked-out clients.
 """
 from common import FakeClock
 import os
@@ -30,12 +34,23 @@ sys.path.insert(0, HERE)
 DRIVER = os.path.join(HERE, "..", "lean", ".lake", "build", "bin", "pymc-driver")
 
 import pooledcall_diff as P  # noqa: E402  (script generator, result tokens, scripted exceptions)
-import hashcall_diff as HD  # noqa: E402  (call generator, hasher, bookkeeping state)
+import hashcall_diff as HD  # noqa: E402  (call generators, hasher, bookkeeping state)
+try:  # the virtual clock of harness/common.py (time() / monotonic() / … all read one clock)
+    from common import FakeClock  # noqa: E402
+except ImportError:  # older trees: only time() is read
+    class FakeClock:
+        def __init__(self, now):
+            self._now = now
+
+        def time(self):
+            return self._now()
 
 H = None
 Client = None
 PooledClient = None
 UNBOUNDED = 2 ** 31          # `max_size or 2**31` of ObjectPool
+EMPTY = {"cf": None, "sf": None, "evs": []}
+MULTI = ("many", "setmany", "delmany")
 
 
 def _bind():
@@ -48,21 +63,24 @@ def _bind():
 
 class World:
     def __init__(self):
-        self.script = None          # script of the public call in progress
-        self.fed = False            # its recv() outcomes were already put on a pipe
+        self.scripts = None         # scripts of the public call in progress: a single one (every server), or {server: script}
+        self.fed = set()            # servers whose recv() outcomes were already put on a pipe
+        self.per_key = None         # delete_many: the scripts of the `_run_cmd`s still to come, in order
         self.now = 0                # time.time() of the HashClient, constant during a call
-        self.fin = 0                # the pool clock when the inner client is released
+        self.fin = 0                # the pool clock when an inner client is released
         self.pool_now = 0           # the pool clock
-        self.prefs = []
+        self.prefs = []             # routing key of the call in progress (None: the key object carries it)
         self.routed = None
         self.pcs = []               # PooledClient objects in order of creation
         self.hc = None
-        self.safely = []            # servers handed to _safely_run_func during the call
-        self.invoked = []           # PooledClients whose pool was asked for a client during the call
-        self.served = []            # inner clients handed out during the call
-        self.used_sock = None
-        self.connected_now = None
+        self.safely = []            # one entry per _safely_run_func / _safely_run_set_many of the call in progress
+        self.cur = None             # the entry of the one in progress
         self.leaked = 0             # idle open sockets of replaced PooledClients (never closed by add_server)
+
+    def script(self, server):
+        if isinstance(self.scripts, dict) and "evs" not in self.scripts:
+            return self.scripts.get(server, EMPTY)
+        return self.scripts
 
 
 class FakeSock:
@@ -70,6 +88,7 @@ class FakeSock:
         self.w = world
         self.cid = None
         self.pc = None
+        self.server = None
         self.pipe = []
         self.is_closed = False
 
@@ -80,22 +99,26 @@ class FakeSock:
         pass
 
     def connect(self, addr):
-        sc = self.w.script
+        self.server = addr[1]
+        sc = self.w.script(self.server)
         if sc["cf"] is not None:
             raise P.boom(sc["cf"])
         # connections are numbered per pool: the PooledClient registered for this server right now
         self.pc = self.w.hc.clients["h:%d" % addr[1]]
         self.cid = self.pc._nconn
         self.pc._nconn += 1
-        self.w.connected_now = self.cid
+        if self.w.cur is not None:
+            self.w.cur["conn"] = self.cid
 
     def sendall(self, data):
-        self.w.used_sock = self.cid
-        if not self.w.fed:
-            self.pipe.extend(self.w.script["evs"])
-            self.w.fed = True
-        if self.w.script["sf"] is not None:
-            raise P.boom(self.w.script["sf"])
+        sc = self.w.script(self.server)
+        if self.w.cur is not None:
+            self.w.cur["used"] = self.cid
+        if self.server not in self.w.fed:
+            self.pipe.extend(sc["evs"])
+            self.w.fed.add(self.server)
+        if sc["sf"] is not None:
+            raise P.boom(sc["sf"])
 
     def recv(self, n):
         while True:
@@ -135,8 +158,13 @@ class FakeSocketModule:
         return [(2, 1, 6, "", (host, port))]
 
 
-def gen_history(rng):
-    n = rng.choice([1, 2, 2, 3])
+def down(rng, sc):
+    """the server is down: connecting is refused, sending on an old socket fails"""
+    sc["cf"], sc["sf"] = rng.choice([61, 61, 13]), rng.choice([32, 32, 54])
+
+
+def gen_history(rng, multi=True):
+    n = rng.choice([1, 2, 2, 3, 3])
     ra = rng.choice([0, 1, 2])
     rt = rng.choice([0, 1, 3])
     dt = rt + rng.choice([1, 2, 6])
@@ -149,14 +177,34 @@ def gen_history(rng):
     history = []
     for _j in range(rng.randint(1, 12)):
         t += rng.choice([0, 0, 1, 1, rt, rt + 1, dt, dt + 1, 2 * dt + 1])
-        thunk, tok, reply = HD.gen_call(rng)
-        sc = P.gen_script(rng, reply)
-        if rng.random() < pdown:
-            # the server this call reaches is down: connecting is refused, sending on an old socket fails
-            sc["cf"], sc["sf"] = rng.choice([61, 61, 13]), rng.choice([32, 32, 54])
-        prefs = rng.sample(range(n), rng.randint(0, n))
         fin = t + rng.choice([0, 0, 0, 1, 2])
-        history.append((thunk, tok, sc, t, fin, prefs))
+        r = rng.random() if multi else 1.0
+        if r < 0.22:
+            gets, keys, scripts = HD.gen_many(rng, n)
+            for sv in scripts:
+                # per-call fault scripts on individual servers
+                if rng.random() < pdown:
+                    down(rng, scripts[sv])
+            history.append(("many", gets, keys, scripts, t, fin))
+        elif r < 0.40:
+            values, expire, noreply, flags, scripts = HD.gen_set_many(rng, n)
+            for sv in scripts:
+                if rng.random() < pdown:
+                    down(rng, scripts[sv])
+            history.append(("setmany", values, expire, noreply, flags, scripts, t, fin))
+        elif r < 0.50:
+            keys, noreply, scripts = HD.gen_delete_many(rng, n)
+            for sc in scripts:
+                if rng.random() < pdown:
+                    down(rng, sc)
+            history.append(("delmany", keys, noreply, scripts, t, fin))
+        else:
+            thunk, tok, reply = HD.gen_call(rng)
+            sc = P.gen_script(rng, reply)
+            if rng.random() < pdown:
+                down(rng, sc)
+            prefs = rng.sample(range(n), rng.randint(0, n))
+            history.append(("cmd", thunk, tok, sc, t, fin, prefs))
         t = fin
     return (n, ra, rt, dt, ign, t0, max_size, idle), history
 
@@ -174,14 +222,15 @@ def run_python(params, history):
         orig = getattr(Client, name)
 
         def f(self, *a, **kw):
-            if self.sock is not None and not w.fed:
+            if self.sock is not None and self.sock.server not in w.fed:
                 # what arrives during the call arrives whether or not the call gets as far as sending (an inner call may
                 # fail its argument checks first): on an open socket it is in the pipe from the start of the inner call
-                self.sock.pipe.extend(w.script["evs"])
-                w.fed = True
+                self.sock.pipe.extend(w.script(self.sock.server)["evs"])
+                w.fed.add(self.sock.server)
             return orig(self, *a, **kw)
         return f
-    for name in ("get", "gets", "gat", "gats", "set", "add", "replace", "append", "prepend", "cas", "delete", "incr", "decr", "touch"):
+    for name in ("get", "gets", "gat", "gats", "set", "add", "replace", "append", "prepend", "cas", "delete", "incr", "decr", "touch",
+                 "get_many", "gets_many", "set_many"):
         setattr(CountingClient, name, wrap(name))
 
     class CountingPooled(PooledClient):
@@ -205,20 +254,43 @@ def run_python(params, history):
 
             def get():
                 # the pool reads its clock once in get() (= the time of the call) and once in release()
-                w.invoked.append(self)
+                if w.cur is not None:
+                    w.cur["pc"] = self
                 w.pool_now = w.now
                 o = real_get()
-                w.served.append(o)
+                if w.cur is not None:
+                    w.cur["inner"] = o
                 w.pool_now = w.fin
                 return o
             self.client_pool.get = get
+
+    def entry(client):
+        e = {"srv": client.server[1], "pc": None, "inner": None, "used": None, "conn": None}
+        w.safely.append(e)
+        return e
 
     class HC(H.HashClient):
         client_class = CountingClient
 
         def _safely_run_func(self, client, func, default_val, *a, **kw):
-            w.safely.append(client.server[1])
-            return super()._safely_run_func(client, func, default_val, *a, **kw)
+            w.cur = entry(client)
+            try:
+                return super()._safely_run_func(client, func, default_val, *a, **kw)
+            finally:
+                w.cur = None
+
+        def _safely_run_set_many(self, client, values, *a, **kw):
+            w.cur = entry(client)
+            try:
+                return super()._safely_run_set_many(client, values, *a, **kw)
+            finally:
+                w.cur = None
+
+        def _run_cmd(self, cmd, key, default_val, *a, **kw):
+            if w.per_key is not None:
+                # delete_many: every `_run_cmd` of the loop has its own script
+                w.scripts, w.fed = w.per_key.pop(0), set()
+            return super()._run_cmd(cmd, key, default_val, *a, **kw)
 
         def add_server(self, server, port=None):
             old = self.clients.get(self._make_client_key(server))
@@ -237,17 +309,37 @@ def run_python(params, history):
         w.hc = hc
         out = []
         show = lambda v: "-" if v is None else str(v)  # noqa: E731
-        for (thunk, _tok, sc, now, fin, prefs) in history:
-            del w.safely[:], w.invoked[:], w.served[:]
-            w.script, w.fed, w.now, w.fin, w.prefs, w.routed = sc, False, now, fin, prefs, "unrouted"
-            w.used_sock, w.connected_now = None, None
-            tok = P.res_token(lambda: thunk(hc))
-            assert len(w.safely) <= 1 and len(w.invoked) <= 1 and len(w.served) <= 1
+        plus = lambda l: "+".join(l) if l else "-"  # noqa: E731
+        for item in history:
+            del w.safely[:]
+            w.cur, w.per_key, w.fed = None, None, set()
+            if item[0] == "setmany":
+                _m, values, expire, noreply, flags, scripts, now, fin = item
+                w.scripts, w.now, w.fin, w.prefs = scripts, now, fin, None
+                tok = P.res_token(lambda: hc.set_many(dict(values), expire, noreply, flags))
+            elif item[0] == "delmany":
+                _m, keys, noreply, scripts, now, fin = item
+                w.scripts, w.now, w.fin, w.prefs = EMPTY, now, fin, None
+                w.per_key = list(scripts)
+                tok = P.res_token(lambda: hc.delete_many(list(keys), noreply=noreply))
+                w.per_key = None
+            elif item[0] == "many":
+                _m, gets, keys, scripts, now, fin = item
+                w.scripts, w.now, w.fin, w.prefs = scripts, now, fin, None
+                # the hasher sees the key object: every key object carries its routing key
+                ks = [HD.KeyObj(k, prefs) for prefs, k in keys]
+                tok = HD.many_token(lambda: (hc.gets_many(ks) if gets else hc.get_many(ks)), gets)
+            else:
+                _m, thunk, _tok, sc, now, fin, prefs = item
+                w.scripts, w.now, w.fin, w.prefs, w.routed = sc, now, fin, prefs, "unrouted"
+                tok = P.res_token(lambda: thunk(hc))
+            if item[0] == "cmd":
+                assert len(w.safely) <= 1
             pcid = {id(p): i for i, p in enumerate(w.pcs)}
-            srv = show(w.safely[0] if w.safely else None)
-            pc = show(pcid[id(w.invoked[0])] if w.invoked else None)
-            inner = show(w.served[0]._iid if w.served else None)
-            io = show(w.used_sock if w.used_sock is not None else w.connected_now)
+            srv = plus([str(e["srv"]) for e in w.safely])
+            pc = plus([show(pcid[id(e["pc"])] if e["pc"] is not None else None) for e in w.safely])
+            inner = plus([show(e["inner"]._iid if e["inner"] is not None else None) for e in w.safely])
+            io = plus([show(e["used"] if e["used"] is not None else e["conn"]) for e in w.safely])
             pools = []
             for key, p in hc.clients.items():
                 free = []
@@ -267,25 +359,64 @@ def run_python(params, history):
 def driver_line(params, history):
     n, ra, rt, dt, ign, t0, max_size, idle = params
     rks = lambda prefs: ",".join(map(str, prefs)) if prefs else "-"  # noqa: E731
-    segs = [f"rk={rks(prefs)} t={now},{fin} {tok} {P.script_tokens(sc)}".strip() for (_th, tok, sc, now, fin, prefs) in history]
+    ob = lambda x: "n" if x is None else str(int(x))  # noqa: E731
+    per = lambda pre, sc: " ".join(f"{pre}.{tk}" for tk in P.script_tokens(sc).split())  # noqa: E731
+    segs = []
+    for item in history:
+        if item[0] == "many":
+            _m, gets, keys, scripts, now, fin = item
+            kstr = "|".join(f"{rks(prefs)}~b:{k.hex()}" for prefs, k in keys) if keys else "-"
+            sct = " ".join(per(f"s{sv}", sc) for sv, sc in sorted(scripts.items()))
+            segs.append(f"op=hget_many gets={int(gets)} t={now},{fin} keys={kstr} {sct}".strip())
+        elif item[0] == "setmany":
+            _m, values, expire, noreply, flags, scripts, now, fin = item
+            istr = "|".join(f"{rks(k.prefs)}~b:{bytes(k).hex()}~{HD.val_token(v)}" for k, v in values.items()) if values else "-"
+            sct = " ".join(per(f"s{sv}", sc) for sv, sc in sorted(scripts.items()))
+            e = "x" if expire == "soon" else "i:%d" % expire
+            segs.append(f"op=hset_many t={now},{fin} items={istr} e={e} nr={ob(noreply)} fl={'n' if flags is None else flags} {sct}".strip())
+        elif item[0] == "delmany":
+            _m, keys, noreply, scripts, now, fin = item
+            kstr = "|".join(f"{rks(k.prefs)}~b:{bytes(k).hex()}" for k in keys) if keys else "-"
+            sct = " ".join(per(f"k{j}", sc) for j, sc in enumerate(scripts))
+            segs.append(f"op=hdelete_many t={now},{fin} nr={ob(noreply)} keys={kstr} {sct}".strip())
+        else:
+            _m, _th, tok, sc, now, fin, prefs = item
+            segs.append(f"rk={rks(prefs)} t={now},{fin} {tok} {P.script_tokens(sc)}".strip())
     return (f"hashpooledcall cfg=000{1 if ign else 0}: fo={ra},{rt},{dt} pool={UNBOUNDED if max_size is None else max_size},{idle} "
             f"n={n} t0={t0} " + " | ".join(segs))
 
 
+def compare(lines, outs, expect, kinds):
+    """as `hashcall_diff.compare`; a mismatch also says whether the first call that differs is a multi-key call (`multi`)"""
+    ncalls, bad = HD.compare(lines, outs, expect)
+    by_line = {line[:600]: ks for line, ks in zip(lines, kinds)}
+    for b in bad:
+        ks = by_line.get(b["line"][:600], [])
+        k = b.get("first_difference_at_call")
+        b["multi"] = bool(ks) and (any(x in MULTI for x in ks) if k is None or k >= len(ks) else ks[k] in MULTI)
+        if k is not None and k < len(ks):
+            b["kind_of_call"] = ks[k]
+    return ncalls, bad
+
+
 def differential(n, rng, batch, stats=None):
     """n random histories on the real HashClient(use_pooling=True) vs the composed Lean model; `batch` = driver batch function.
-    Returns (number of calls compared, list of mismatch dicts)."""
+    Returns (number of calls compared, list of mismatch dicts; `multi` in a mismatch = the call that differs is a
+    `get_many` / `gets_many` / `set_many` / `delete_many`)."""
     _bind()
-    lines, expect = [], []
+    lines, expect, kinds = [], [], []
     for _ in range(n):
         params, history = gen_history(rng)
         py, leaked = run_python(params, history)
         if stats is not None:
             stats["leaked"] = stats.get("leaked", 0) + leaked
+            for item in history:
+                stats[item[0]] = stats.get(item[0], 0) + 1
         expect.append(py)
         lines.append(driver_line(params, history))
+        kinds.append([item[0] for item in history])
     outs = batch(lines)
-    return HD.compare(lines, outs, expect)
+    return compare(lines, outs, expect, kinds)
 
 
 def main():
@@ -305,7 +436,8 @@ def main():
         for k, v in b.items():
             print("   ", k, ":", v)
     print(f"hashpooledcall_diff: histories={n} calls={ncalls} mismatches={len(bad)} "
-          f"open_idle_sockets_dropped_by_add_server={stats.get('leaked', 0)}")
+          f"single={stats.get('cmd', 0)} get_many={stats.get('many', 0)} set_many={stats.get('setmany', 0)} "
+          f"delete_many={stats.get('delmany', 0)} open_idle_sockets_dropped_by_add_server={stats.get('leaked', 0)}")
     sys.exit(1 if bad else 0)
 
 
